@@ -170,7 +170,7 @@ PROPS.update({
         explanation="Theorem C05 (proofs/C05Complete*.v, 21 files): for every well-formed call whose target is derivable and whose converters all have at most one input (arbitrary cycles) or are acyclic and satisfiable, and for EVERY order tape, the call from a fresh world returns a result or the error of a failing converter -- never the unsatisfied-argument error, a panic or out-of-fuel -- and succeeds under every order when nothing fails (stability of the outcome). Hypotheses: transitive implements relation (refuted otherwise: C05_untransitive_refuted) and fewer than (2^63-1)/20 graph vertices. Proved for the repaired code: the proof attempt produced the counterexample D18 on the pinned tree (replayed 200/200 on the Go library, fixed by a53b619, now C05_d18_regression and witness TestD18); a search of 1.4 million premise-satisfying scenarios x 8 tapes on the repaired model found nothing. Correspondence: outcome class under several tapes per scenario and native map order; monitor c05_ok.",
         assumptions=["derivability is computed without memoized results", "domain bound: fewer than (2^63-1)/20 graph vertices"]),
     "C08": dict(layer=RES,
-        streams=[S("redefstrict", "run_prop2 CFull 8", 500, 16000), S("redefine", "run_prop2 CFull 8", 250, 6000),
+        streams=[S("redefstrict", "run_prop2 CFull 8", 500, 16000), S("redefine", "run_checks_r (check_scn CFull)", 250, 6000),
                  S("redefstrict", "run_prop2 CPanic 8", 200, 4000, variant="nat")],
         witness=[W("TestD7", "D7"), W("TestD8", "D8")],
         nontrivial_rule="history with at least one execution",
